@@ -1,36 +1,44 @@
 /-
   Model of the ARP spoofer (handlers/arp_spoofer/spoof.go, arp.go) as a small-step transition system:
-  handler state + one program counter per `spoofLoop` goroutine + the replies `ProcessPacket` has
-  decided to send; one atomic step per `arpMutex` section, per unsynchronised read of `h.closed`, and
-  per frame written.
+  handler state + one program counter per `spoofLoop` goroutine; one atomic step per `arpMutex`
+  section and one per frame written.
 
-  Code modelled: after `fix: arp spoofLoop looks up its own hunt entry by MAC …` (before the fix the
-  loop used `findHuntByIP(addr.IP)` on a list keyed by MAC, so with two hunted MACs sharing one IPv4
-  the loop of a stopped MAC found the other entry, kept running and never restored its target).
+  Code modelled: after `fix: arp spoofLoop looks up its own hunt entry by MAC …`, after the `closed`
+  flag moved under `arpMutex`, and after `fix: arp_spoofer wrote its forged packets after releasing
+  arpMutex`: the hunt-list lookup and the packet it calls for (the loop's forged announcement, its
+  restoring request, the immediate forged reply of ProcessPacket) are ONE critical section.
+  `State.holder` is the thread that holds `arpMutex` across its frame; every transition that takes
+  the mutex is enabled only while `holder = none`.
 
     startHunt mac v4    StartHunt(addr): `addr.MAC == nil || !addr.IP.Is4()` → ErrInvalidIP; under the
                         mutex: MAC already in the list → nothing, else insert and `go spoofLoop(addr)`
     stopHunt mac ip     StopHunt(addr): delete(huntList, addr.MAC) under the mutex – the list is keyed by MAC;
                         addr.IP (the host may have changed address since StartHunt, or share it with
                         another hunted MAC) plays no role
-    close               Close(): closed = true; close(closeChan)
-    check i             loop i: Lock(); targetAddr, hunting := huntList[MAC]; Unlock()
-    gate i              loop i evaluates `!hunting || h.closed` (reads `closed`)
-    exitRead i          loop i evaluates `!h.closed` before the restoring request (reads `closed` again)
-    restore i           loop i writes the restoring ARP request (router's real MAC and IP) to its target
-    forge i             loop i writes the forged announcement (router IP at our MAC) to its target
+    close               Close(): under the mutex closed = true; close(closeChan)
+    check i             loop i: Lock(); targetAddr, hunting := huntList[MAC]; closed := h.closed;
+                        hunting ∧ ¬closed → pc := forge, the mutex stays held (holder := loop i);
+                        ¬hunting ∧ ¬closed → pc := restore, the mutex stays held;
+                        closed → Unlock, return
+    restore i           loop i writes the restoring ARP request (router's real MAC and IP) to its target,
+                        Unlock, return
+    forge i             loop i writes the forged announcement (router IP at our MAC) to its target, Unlock,
+                        waits in its `select`
     wake i              the `select` returns (6 s ticker, or closeChan)
     rxRequest esrc smac toRouter
                         ProcessPacket, ARP request with Ethernet source esrc and ARP sender hardware address
-                        smac (they differ when a bridge relays the request): under the mutex
+                        smac (they differ when a bridge relays the request): Lock();
                         `_, hunting := huntList[arp.SrcMAC()]` – keyed on the ARP sender, not on esrc;
-                        if hunting ∧ target IP = router IP a forged reply to smac is decided
-    reply smac          that reply is written (after the mutex was released)
+                        if hunting ∧ target IP = router IP the mutex stays held for the forged reply to smac
+                        (holder := rx smac), else Unlock
+    reply smac          that reply is written, Unlock
     rxProbe …           ProcessPacket, ARP probe: probe-reject reply iff the probing MAC holds a DHCP
                         offer different from the probed address and the probed address is in the home LAN
+                        (the mutex is not involved)
     rxOther             announcements, replies, link-local and invalid packets: nothing is sent
 
   Wall-clock time is not modelled: `wake` is enabled whenever a loop waits.
+  Assumption: writes to the connection succeed (on a write error the loop returns without restoring).
 -/
 import PacketVerif.Basic
 namespace PV.Model.ArpHunt
@@ -38,8 +46,6 @@ open PV
 
 inductive Pc where
   | check
-  | gate (hunting : Bool)
-  | exitRead
   | restore
   | forge
   | wait
@@ -51,10 +57,16 @@ structure Loop where
   pc : Pc := .done
   deriving DecidableEq, Repr, Inhabited
 
+/-- who holds `arpMutex` across the frame it is about to write -/
+inductive Holder where
+  | loop (i : Nat)          -- spoofLoop i, between its lookup and its announcement / restoring request
+  | rx (smac : Bytes)       -- ProcessPacket, between its lookup and the forged reply to smac
+  deriving DecidableEq, Repr
+
 structure State where
   hunt : List Bytes := []          -- keys of huntList (MAC → Addr)
   closed : Bool := false
-  replies : List Bytes := []       -- forged replies decided by ProcessPacket, not yet written
+  holder : Option Holder := none
   nloops : Nat := 0
   loops : Nat → Loop := fun _ => {}
   /-- history variable: MACs for which a StartHunt was accepted -/
@@ -64,7 +76,7 @@ inductive Event where
   | startHunt (mac : Bytes) (validV4 : Bool)
   | stopHunt (mac : Bytes) (ip : Bytes)
   | close
-  | check (i : Nat) | gate (i : Nat) | exitRead (i : Nat) | restore (i : Nat) | forge (i : Nat) | wake (i : Nat)
+  | check (i : Nat) | restore (i : Nat) | forge (i : Nat) | wake (i : Nat)
   | rxRequest (esrc : Bytes) (smac : Bytes) (toRouter : Bool)
   | reply (smac : Bytes)
   | rxProbe (smac : Bytes) (offer : Option Bytes) (tip : Bytes) (tipInLan : Bool)
@@ -91,34 +103,38 @@ def probeRejects (offer : Option Bytes) (tip : Bytes) (tipInLan : Bool) : Bool :
   | some o => o ≠ tip && tipInLan
   | none => false
 
+/-- `arpMutex` is free -/
+abbrev free (s : State) : Prop := s.holder = none
+
 def step (s : State) : Event → Option (State × Out)
   | .startHunt mac validV4 =>
     if ¬ validV4 then some (s, .startErr)
+    else if ¬ free s then none
     else if mac ∈ s.hunt then some (s, .startOk)
     else some ({ s with hunt := mac :: s.hunt, nloops := s.nloops + 1, started := mac :: s.started,
                         loops := updLoop s.loops s.nloops { mac := mac, pc := .check } }, .startOk)
-  | .stopHunt mac _ => some ({ s with hunt := s.hunt.erase mac }, .none)
-  | .close => some ({ s with closed := true }, .none)
+  | .stopHunt mac _ => if free s then some ({ s with hunt := s.hunt.erase mac }, .none) else none
+  | .close => if free s then some ({ s with closed := true }, .none) else none
   | .check i =>
-    if (s.loops i).pc = .check then some (setPc s i (.gate (decide ((s.loops i).mac ∈ s.hunt))), .none) else none
-  | .gate i =>
-    match (s.loops i).pc with
-    | .gate h => if ¬ h ∨ s.closed then some (setPc s i .exitRead, .none) else some (setPc s i .forge, .none)
-    | _ => none
-  | .exitRead i =>
-    if (s.loops i).pc = .exitRead then
-      (if ¬ s.closed then some (setPc s i .restore, .none) else some (setPc s i .done, .none))
+    if (s.loops i).pc = .check ∧ free s then
+      if s.closed then some (setPc s i .done, .none)
+      else if (s.loops i).mac ∈ s.hunt then some ({ setPc s i .forge with holder := some (.loop i) }, .none)
+      else some ({ setPc s i .restore with holder := some (.loop i) }, .none)
     else none
   | .restore i =>
-    if (s.loops i).pc = .restore then some (setPc s i .done, .restoring (s.loops i).mac) else none
+    if (s.loops i).pc = .restore then some ({ setPc s i .done with holder := none }, .restoring (s.loops i).mac)
+    else none
   | .forge i =>
-    if (s.loops i).pc = .forge then some (setPc s i .wait, .forged (s.loops i).mac) else none
+    if (s.loops i).pc = .forge then some ({ setPc s i .wait with holder := none }, .forged (s.loops i).mac)
+    else none
   | .wake i =>
     if (s.loops i).pc = .wait then some (setPc s i .check, .none) else none
   | .rxRequest _ smac toRouter =>
-    if smac ∈ s.hunt ∧ toRouter then some ({ s with replies := smac :: s.replies }, .none) else some (s, .none)
+    if free s then
+      (if smac ∈ s.hunt ∧ toRouter then some ({ s with holder := some (.rx smac) }, .none) else some (s, .none))
+    else none
   | .reply smac =>
-    if smac ∈ s.replies then some ({ s with replies := s.replies.erase smac }, .spoofReply smac) else none
+    if s.holder = some (.rx smac) then some ({ s with holder := none }, .spoofReply smac) else none
   | .rxProbe smac offer tip inLan =>
     if probeRejects offer tip inLan then some (s, .probeReject smac tip) else some (s, .none)
   | .rxOther => some (s, .none)
@@ -132,5 +148,16 @@ def run (s : State) : List Event → Option (State × List Out)
       match run s' es with
       | none => none
       | some (s'', os) => some (s'', o :: os)
+
+/-- the output is a forged ARP packet (loop announcement or immediate reply) to `mac` -/
+def forgedTo (mac : Bytes) : Out → Bool
+  | .forged m => m = mac
+  | .spoofReply m => m = mac
+  | _ => false
+
+/-- number of forged packets to `mac` in an output list -/
+def forgedCount (mac : Bytes) : List Out → Nat
+  | [] => 0
+  | o :: rest => (if forgedTo mac o then 1 else 0) + forgedCount mac rest
 
 end PV.Model.ArpHunt
